@@ -323,7 +323,7 @@ func runD06(t *testing.T, c d06Cell) {
 // C03 (decorator side): the attachments view
 
 func TestVerif_C03_DecoratorView(t *testing.T) {
-	roles := []string{"ours", "other-decorator", "real-controller", "marker-only", "foreign", "ours-other-ns", "ours-deleting"}
+	roles := []string{"ours", "other-decorator", "real-controller", "marker-only", "foreign", "ours-other-ns", "ours-deleting", "sibling-plain-ref"}
 	rng := sim.Rand("C03-decorator")
 	for _, target := range []string{"Thing", "ClusterThing"} {
 		for _, kinds := range [][]string{{"ConfigMap"}, {"Widget"}, {"ConfigMap", "Widget"}, {"Widget", "ClusterWidget"}} {
@@ -393,6 +393,13 @@ func runD03(t *testing.T, id, target string, kinds []string, fin bool, roles []s
 				o = r.asCreatedByDC(kid, "x", uid)
 				delete(o["metadata"].(map[string]interface{}), "ownerReferences")
 				sim.AddOwner(o, sim.Obj{"apiVersion": "apps/v1", "kind": "ReplicaSet", "metadata": sim.Obj{"name": "rs", "uid": "rs-" + uid}}, true)
+			case "sibling-plain-ref":
+				// controlled (and marked) by another target of this decorator; this target is listed
+				// as a plain, non-controller owner only
+				o = r.asCreatedByDC(kid, "x", uid)
+				delete(o["metadata"].(map[string]interface{}), "ownerReferences")
+				sim.AddOwner(o, sim.Obj{"apiVersion": sc.targetInfo().APIVersion(), "kind": sc.targetInfo().Kind, "metadata": sim.Obj{"name": "sibling-" + uid, "uid": "sibling-uid-" + uid}}, true)
+				sim.AddOwner(o, r.target, false)
 			case "ours-other-ns":
 				if !ri.Namespaced {
 					continue
